@@ -127,7 +127,7 @@ def combine(libs, choose=None):
                 gi = gmap[(li, idx)]
                 c.recs[k][gi] = _map_refs(k, rec, g(li))
                 c.owner[(k, gi)] = owner
-                if k == "types" and rec["true_name"] and rec["name"]:
+                if k == "types" and rec["true_name"]:        # identified by true name, whatever the short name
                     classes.setdefault(rec["true_name"], []).append(gi)
     redirect = {}
     info = {}
